@@ -159,8 +159,9 @@ func lookupOf(v ssa.Value) *ssa.Lookup {
 	return nil
 }
 
-func secretKeyResponseFieldRule(P *Program, R *Report) {
-	rule := "C03.b"
+func secretKeyResponseFieldRule(P *Program, R *Report) { secretKeyResponseFieldRuleFor(P, R, "C03.b") }
+
+func secretKeyResponseFieldRuleFor(P *Program, R *Report, rule string) {
 	impls := implementationsOf(P, "gabi", "Proof")
 	R.decide(rule, "gabi.Proof:implementations", "at least the 2 known implementations", len(impls) >= 2, fmt.Sprintf("%d", len(impls)), "")
 	for _, t := range impls {
